@@ -448,6 +448,22 @@ class Facts:
             raise RuntimeError("fact file %s has no meta record (truncated?)" % path)
         self._callers = None
         self._children = None
+        # constants of struct type whose initialiser is a literal aggregate of integers (`ErrorCode(4)`): the
+        # integer fields are recorded, so `ErrorCode::X.0` folds like a named integer constant does
+        for n, c in self.consts.items():
+            b = self.bodies.get(n)
+            if "v" in c or b is None or len(b.blocks) != 1 or b.blocks[0]["term"]["t"] != "return":
+                continue
+            for st in b.blocks[0]["stmts"]:
+                if st["s"] == "assign" and st["pl"]["l"] == 0 and not st["pl"]["p"] and st["rv"]["r"] == "agg" \
+                        and st["rv"].get("ak") == "adt":
+                    ops = st["rv"]["ops"]
+                    vals = [o.get("k", {}).get("v") if isinstance(o, dict) else None for o in ops]
+                    if ops and all(isinstance(v, int) and not isinstance(v, bool) for v in vals):
+                        fs = st["rv"].get("fields") or []
+                        if len(fs) != len(ops):
+                            fs = [str(i) for i in range(len(ops))]
+                        c["fields"] = dict(zip([str(x) for x in fs], vals))
 
     # closures / nested bodies by root fn
     def children(self, name):
